@@ -220,11 +220,33 @@ def enumerate_ops(tree, nlev, rng, ndims, nf, full=True):
 
 # --------------------------------------------------------------------------- real validator
 
-def real_taste(path, limit=None, nofail=False, **opts):
-    """(good, raised exception name or None)"""
+def real_taste(path, limit=None, nofail=False, cli=False, **opts):
+    """(good, raised exception name or None); cli: through the console script `taste` (its argument parsing and option
+    defaults included; the verdict is the truth value of the validator object the script builds)"""
     from amr_kitchen.taste.taste import Taster
     try:
         with alarm(120), quiet(), pools.controlled():
+            if cli:
+                import amr_kitchen.taste.cli as tcli
+                from . import tools
+                argv = ["taste", path, "-v", "0"]
+                if limit is not None: argv += ["-l", str(limit)]
+                if not opts.get("binary_headers", True): argv.append("-nh")
+                if not opts.get("binary_shape", True): argv.append("-ns")
+                if opts.get("binary_data", False): argv.append("-bd")
+                if opts.get("boxes_coordinates", False): argv.append("-bc")
+                if nofail: argv.append("-nf")
+                made = []
+                orig = tcli.Taster
+
+                def recording(*a, **k):
+                    t = orig(*a, **k); made.append(t); return t
+                tcli.Taster = recording
+                try:
+                    tools.run_main("amr_kitchen.taste.cli", argv)
+                finally:
+                    tcli.Taster = orig
+                return (bool(made[-1]) if made else False), None
             t = Taster(path, limit_level=limit, nofail=nofail, verbose=0, **opts)
             return bool(t), None
     except CaseTimeout:
@@ -401,4 +423,16 @@ def read_back(path, tree, limit=None):
                 if one.tobytes() != np.ascontiguousarray(wdata).tobytes():
                     bad.append(f"level {lv} box {b}: field selection {sel!r} holds other values than the FAB")
                     break
+            else:
+                # the same validated level addressed from the end (Python's negative index over the levels read)
+                if (lv + b) % 3 == 0:
+                    neg = lv - (pck.limit_level + 1)
+                    try:
+                        with quiet():
+                            again = np.asarray(pck[:][neg][b])
+                    except Exception as e:
+                        bad.append(f"level {lv} box {b}: read through the level key {neg} raised {type(e).__name__}: {e}")
+                        continue
+                    if again.shape != arr.shape or again.tobytes() != np.asarray(arr).tobytes():
+                        bad.append(f"level {lv} box {b}: the level key {neg} returns other data than the key {lv}")
     return bad
